@@ -88,9 +88,31 @@ def foldOf (item : Char) (j : Nat) (raw : String) : Out (Fold Nat Float) :=
   | 'X' => .raise
   | _ => if raw.startsWith "{" then .ok ⟨true, 1.0, none, j⟩ else .ok ⟨false, 0.0, some "all strategies failed", j⟩
 
-def healAdv (gs fs : List Char) : HealAdv (Nat × Nat) Nat Float where
-  gen s _ ctx := ((s.1 + 1, s.2), genRaw (pick gs s.1 'g') s.1 ctx)
-  fold s raw := ((s.1, s.2 + 1), foldOf (pick fs s.2 'A') s.2 raw)
+/-- environment state of a heal object: the scripts and call counters of its callbacks and the public attributes
+    `max_retries` / `confidence_decay` as last assigned (by the caller between calls, or by the generator itself:
+    script item `r` sets `loop.max_retries = 0`, `R` adds 2 to it, then both return garbage) -/
+structure HSt where
+  g : Nat := 0
+  f : Nat := 0
+  gs : List Char := []
+  fs : List Char := []
+  mr : Int := 3
+  decay : Float := 0.1
+
+def healAdvD : HealAdv HSt Nat Float where
+  gen s _ ctx :=
+    let item := pick s.gs s.g 'g'
+    let mr' := if item = 'r' then 0 else if item = 'R' then s.mr + 2 else s.mr
+    ({ s with g := s.g + 1, mr := mr' }, genRaw item s.g ctx)
+  fold s raw := ({ s with f := s.f + 1 }, foldOf (pick s.fs s.f 'A') s.f raw)
+
+def healObjD : HealObj HSt Nat Float where
+  adv := healAdvD
+  retriesOf s := s.mr
+  opsOf s := floatOps s.decay
+
+/-- new scripts for the callbacks (every call line brings its own) -/
+def hScripts (gs fs : List Char) (s : HSt) : HSt := { s with g := 0, f := 0, gs := gs, fs := fs }
 
 def showTrace : Option String → String
   | none => "none"
@@ -109,7 +131,7 @@ def showCall (c : GenCall Nat Float) : String :=
     | none => "-" | some .raise => "x" | some (.ok f) => if f.valid then "v" else "i"
   s!"{showBool (c.prompt = "P<7>")}:{showCtx c.ctx}:{o}{f}"
 
-def showHeal (r : HealRun (Nat × Nat) Nat Float) : String :=
+def showHeal (r : HealRun HSt Nat Float) : String :=
   let calls := showList (r.calls.map showCall)
   match r.res with
   | .raise => s!"raise calls={calls}"
@@ -122,7 +144,7 @@ def showHeal (r : HealRun (Nat × Nat) Nat Float) : String :=
     joinSp ["ok", showOutcome h.outcome, showBool h.isValid, fd, showF h.finalConf, showBool h.tagged, atts,
       s!"calls={calls}"]
 
-def healTags (r : HealRun (Nat × Nat) Nat Float) : String :=
+def healTags (r : HealRun HSt Nat Float) : String :=
   match r.res with
   | .raise => "heal:raise"
   | .ok h =>
@@ -133,12 +155,19 @@ def healTags (r : HealRun (Nat × Nat) Nat Float) : String :=
 
 /-! ### swarm -/
 
+/-- environment state of a swarm object: scripts and counters of its callbacks, and the public attributes
+    `max_regenerations` / `max_steps_per_worker` / `entropy_threshold` as last assigned -/
 structure SwSt where
   spawn : Nat := 0     -- factory calls so far
   step : Nat := 0      -- steps within the current spawn
   g : Nat := 0         -- steps in this supervise call
   summ : Nat := 0
   last : Nat := 0      -- last worker handle handed out
+  fs : List Char := []
+  ss : List (List Char) := []
+  ms : List Char := []
+  cfg : SwarmCfg := ⟨3, 10⟩
+  thr : Float := 0.9
 
 def stepOut (item : Char) (g : Nat) : Out String :=
   match item with
@@ -158,31 +187,40 @@ def stepOut (item : Char) (g : Nat) : Out String :=
   | 'x' => .raise
   | _ => .ok s!"out <{g}>"
 
-def swarmAdv (fs : List Char) (ss : List (List Char)) (ms : List Char) :
-    SwarmAdv SwSt Nat String (List Nat) Nat String where
+def swarmAdvD : SwarmAdv SwSt Nat String (List Nat) Nat String where
   factory s name _ :=
-    match pick fs s.spawn 'w' with
+    match pick s.fs s.spawn 'w' with
     | 'x' => ({ s with spawn := s.spawn + 1, step := 0 }, .raise)
     | 'r' =>
       if s.spawn = 0 then ({ s with spawn := s.spawn + 1, step := 0, last := name }, .ok name)
       else ({ s with spawn := s.spawn + 1, step := 0 }, .ok s.last)
     | _ => ({ s with spawn := s.spawn + 1, step := 0, last := name }, .ok name)
   step s _ _ :=
-    let script := match ss with
+    let script := match s.ss with
       | [] => []
-      | _ => ss.getD (min (s.spawn - 1) (ss.length - 1)) []
+      | _ => s.ss.getD (min (s.spawn - 1) (s.ss.length - 1)) []
     ({ s with step := s.step + 1, g := s.g + 1 }, stepOut (pick script s.step 'u') s.g)
   summarize s _ :=
-    match pick ms s.summ 'h' with
+    match pick s.ms s.summ 'h' with
     | 'x' => ({ s with summ := s.summ + 1 }, .raise)
     | 'e' => ({ s with summ := s.summ + 1 }, .ok [])
     | _ => ({ s with summ := s.summ + 1 }, .ok [s.summ + 10])
   wid w := w
 
+/-- new scripts for the callbacks of one `supervise` line -/
+def swScripts (fs : List Char) (ss : List (List Char)) (ms : List Char) (s : SwSt) : SwSt :=
+  { s with spawn := 0, step := 0, g := 0, summ := 0, last := 0, fs := fs, ss := ss, ms := ms }
+
 def swarmCode (thr : Float) : SwarmCode String where
   marker := strMarker
   distinct l := l.eraseDups.length
   low u n := Float.ofNat u / Float.ofNat n < 1.0 - thr
+
+def swarmObjD : SwarmObj SwSt Nat String (List Nat) Nat String where
+  adv := swarmAdvD
+  cfgOf s := s.cfg
+  codeOf s := swarmCode s.thr
+  hints0 := []
 
 def showHints (h : List Nat) : String := if h.isEmpty then "-" else ".".intercalate (h.map fun n => s!"h{n}")
 
@@ -227,25 +265,31 @@ structure TSt where
   p : Nat := 0
   e : Nat := 0
   c : Nat := 0
+  ps : List Char := []
+  ts : List Char := []
+  cs : List Char := []
+  /-- the tool executor is the real `Mitochondria.execute_tool_call` around a scripted tool function: an exception
+      of the tool comes back as a failed result carrying `str(e)`, never as an exception -/
+  realMito : Bool := false
 
 /-- script items on which a provider call raises: `x` a foreign exception, `u`/`q`/`t`/`e` the library's own
     ProviderUnavailableError / QuotaExhaustedError / TranscriptionFailedError / NucleusError -/
 def raises (item : Char) : Bool := item = 'x' || item = 'u' || item = 'q' || item = 't' || item = 'e'
 
-def toolAdv (ps ts cs : List Char) : ToolAdv TSt Nat Nat TRes where
+def toolAdvD : ToolAdv TSt Nat Nat TRes where
   completeTools s _ :=
-    let item := pick ps s.p '1'
+    let item := pick s.ps s.p '1'
     let s' := { s with p := s.p + 1 }
     if raises item then (s', .raise)
     else if item.isDigit then (s', .ok (1000 + s.p, (List.range (item.toNat - '0'.toNat)).map fun j => s.p * 10 + j))
     else (s', .ok (1000 + s.p, []))
   complete s _ :=
-    if raises (pick cs s.c 'r') then ({ s with c := s.c + 1 }, .raise)
+    if raises (pick s.cs s.c 'r') then ({ s with c := s.c + 1 }, .raise)
     else ({ s with c := s.c + 1 }, .ok (2000 + s.c))
   exec s call :=
-    match pick ts s.e 'o' with
-    | 'x' => ({ s with e := s.e + 1 }, .raise)
-    | 'u' => ({ s with e := s.e + 1 }, .raise)
+    match pick s.ts s.e 'o' with
+    | 'x' => ({ s with e := s.e + 1 }, if s.realMito then .ok ⟨call, false, [100 + s.e]⟩ else .raise)
+    | 'u' => ({ s with e := s.e + 1 }, if s.realMito then .ok ⟨call, false, [100 + s.e]⟩ else .raise)
     | 'f' => ({ s with e := s.e + 1 }, .ok ⟨call, false, [100 + s.e]⟩)
     | 'b' => ({ s with e := s.e + 1 }, .ok ⟨call, true, []⟩)          -- empty output
     | 'w' => ({ s with e := s.e + 1 }, .ok ⟨call, true, []⟩)          -- whitespace-only output
@@ -271,12 +315,13 @@ def showTEv : TEv Nat Nat TRes → String
   | .complete p (.ok _) => s!"C{showView p}:r"
   | .complete p .raise => s!"C{showView p}:x"
 
-def showTool (r : ToolRun TSt Nat Nat TRes) : String :=
+/-- `log` is the nucleus's whole `transcription_log` after the call -/
+def showTool (log : List (TLog Nat TRes)) (r : ToolRun TSt Nat Nat TRes) : String :=
   let res := match r.res with
     | none => "out-of-fuel"
     | some .raise => "raise"
     | some (.ok x) => s!"ok {x}"
-  s!"{res} log={showList (r.logged.map fun l => s!"{showView l.prompt}:{l.response}")} " ++
+  s!"{res} log={showList (log.map fun l => s!"{showView l.prompt}:{l.response}")} " ++
     s!"evs={showList (r.evs.map showTEv)}"
 
 def toolTags (cfg : ToolCfg) (r : ToolRun TSt Nat Nat TRes) : String :=
@@ -292,25 +337,57 @@ def toolTags (cfg : ToolCfg) (r : ToolRun TSt Nat Nat TRes) : String :=
 /-! ### dispatch -/
 
 structure DSt where
-  swCfg : SwarmCfg := ⟨3, 10⟩
-  thr : Float := 0.9
+  /-- environment of the live `ChaperoneLoop` (`loop` / `hset` / `hcall` lines) -/
+  hs : HSt := {}
+  /-- environment and private state of the live `RegenerativeSwarm` (`swarm` / `sset` / `supervise` lines) -/
+  ss : SwSt := {}
   sw : SwarmSt Nat (List Nat) := ⟨0, [], []⟩
+  /-- `transcription_log` of the live `Nucleus` (`nucleus` / `nset` / `ntools` lines) -/
+  nlog : List (TLog Nat TRes) := []
+
+def toolLine (log : List (TLog Nat TRes)) (mi ae hs ha ps ts cs : String) :
+    List (TLog Nat TRes) × String :=
+  -- hasSchemas: 0 / 1 = stub mitochondria without / with schemas, 3 / 2 = the real Mitochondria without / with a tool
+  let cfg : ToolCfg := ⟨intD mi, boolOf ae, hs = "1" || hs = "2", boolOf ha⟩
+  let s0 : TSt := { ps := scriptOf ps, ts := scriptOf ts, cs := scriptOf cs, realMito := hs = "2" || hs = "3" }
+  let r := nucCall toolAdvD log s0 cfg
+  (r.1, showTool r.1 r.2.2 ++ " ## " ++ toolTags cfg r.2.2)
 
 def step (st : DSt) (toks : List String) : DSt × String :=
   match toks with
-  | ["heal", mr, decay, _mode, gs, fs] =>
-    let r := heal (floatOps (floatOf decay)) ⟨intD mr⟩ (healAdv (scriptOf gs) (scriptOf fs)) (0, 0) "P<7>"
+  | ["heal", mr, decay, _mode, gs, fs] =>      -- a fresh loop object, one call
+    let s0 : HSt := hScripts (scriptOf gs) (scriptOf fs) { mr := intD mr, decay := floatOf decay }
+    let r := (healObjD.call () s0 "P<7>").2.2
     (st, showHeal r ++ " ## " ++ healTags r)
+  | ["loop", mr, decay, _mode] => ({ st with hs := { mr := intD mr, decay := floatOf decay } }, "ok")
+  | ["hset", "mr", v] => ({ st with hs := { st.hs with mr := intD v } }, "ok")
+  | ["hset", "decay", v] => ({ st with hs := { st.hs with decay := floatOf v } }, "ok")
+  | ["hset", _, "new"] => (st, "ok")           -- a callback attribute re-assigned to an equivalent new callable
+  | ["hcall", gs, fs] =>
+    let a := objStep healObjD.call () st.hs (.assign (hScripts (scriptOf gs) (scriptOf fs)))
+    match objStep healObjD.call () a.2.1 (.call "P<7>") with
+    | (_, s', some r) => ({ st with hs := s' }, showHeal r ++ " ## " ++ healTags r ++ " heal:live")
+    | _ => (st, "bad-op")
   | ["swarm", mr, ms, thr] =>
-    ({ swCfg := ⟨intD mr, intD ms⟩, thr := floatOf thr, sw := ⟨0, [], []⟩ }, "ok")
+    ({ st with ss := { cfg := ⟨intD mr, intD ms⟩, thr := floatOf thr }, sw := ⟨0, [], []⟩ }, "ok")
+  | ["sset", "mreg", v] => ({ st with ss := { st.ss with cfg := ⟨intD v, st.ss.cfg.maxSteps⟩ } }, "ok")
+  | ["sset", "ms", v] => ({ st with ss := { st.ss with cfg := ⟨st.ss.cfg.maxRegen, intD v⟩ } }, "ok")
+  | ["sset", "thr", v] => ({ st with ss := { st.ss with thr := floatOf v } }, "ok")
+  | ["sset", _, "new"] => (st, "ok")
   | ["supervise", fs, ss, ms] =>
     let scripts := if ss = "-" then [] else (ss.splitOn "|").map scriptOf
-    let r := supervise (swarmCode st.thr) st.swCfg (swarmAdv (scriptOf fs) scripts (scriptOf ms)) "T<7>" [] st.sw {}
-    ({ st with sw := r.sw }, showSwarm r ++ " ## " ++ swarmTags st.swCfg r)
-  | ["tools", mi, ae, hs, ha, ps, ts, cs] =>
-    let cfg : ToolCfg := ⟨intD mi, boolOf ae, boolOf hs, boolOf ha⟩
-    let r := transcribeWithTools cfg (toolAdv (scriptOf ps) (scriptOf ts) (scriptOf cs)) {}
-    (st, showTool r ++ " ## " ++ toolTags cfg r)
+    let a := objStep swarmObjD.call st.sw st.ss (.assign (swScripts (scriptOf fs) scripts (scriptOf ms)))
+    match objStep swarmObjD.call a.1 a.2.1 (.call "T<7>") with
+    | (sw', s', some r) => ({ st with ss := s', sw := sw' }, showSwarm r ++ " ## " ++ swarmTags a.2.1.cfg r)
+    | _ => (st, "bad-op")
+  | ["tools", mi, ae, hs, ha, ps, ts, cs] =>   -- a fresh nucleus, one call
+    (st, (toolLine [] mi ae hs ha ps ts cs).2)
+  | ["nucleus"] => ({ st with nlog := [] }, "ok")
+  | ["nset", "log", _] => ({ st with nlog := [] }, "ok")     -- `nucleus.transcription_log = []` / `clear_log()`
+  | ["nset", _, _] => (st, "ok")                             -- attributes the tool loop does not read
+  | ["ntools", mi, ae, hs, ha, ps, ts, cs] =>
+    let r := toolLine st.nlog mi ae hs ha ps ts cs
+    ({ st with nlog := r.1 }, r.2 ++ " tool:live")
   | ["retools", _, _, _] => (st, "ok")   -- re-entrant tool adversary: judged by the harness oracle only
   | _ => (st, "bad-op")
 
